@@ -5,3 +5,4 @@ import Proofs.Range
 import Proofs.FromDom
 import Proofs.Placement
 import Proofs.PlacementValid
+import Proofs.PlacementMarks
